@@ -2,6 +2,8 @@
 
 package dns
 
+import "sync/atomic"
+
 // Instrumentation used only by the runtime-monitoring harness (build tag "verif").
 // Nothing here is compiled into a normal build.
 
@@ -14,6 +16,12 @@ func verifHook(point string, buf []byte) {
 		h(point, buf)
 	}
 }
+
+// VerifWork counts steps of loops whose iterations do not each consume input (the label /
+// pointer walk of UnpackDomainName), so a monitor can bound decoding work by the input length.
+var VerifWork atomic.Int64
+
+func verifWork(n int) { VerifWork.Add(int64(n)) }
 
 // VerifState reports the server's started flag and the number of tracked connections.
 func (srv *Server) VerifState() (started bool, conns int) {
